@@ -70,14 +70,7 @@ func (nw *netw) marksTerm(nd *vbft.VerifC34Node) (string, *mBlk) {
 		p, k := nw.refPK(r)
 		return fmt.Sprintf("(Some (%s, %d))", cN(p), k)
 	}
-	com := "None"
-	if m.Committed != nil {
-		p, k := nw.refPK(m.Committed)
-		com = fmt.Sprintf("(Some (%s, %d, false))", cN(p), k)
-	} else if m.CommittedEmpty != nil {
-		p, k := nw.refPK(m.CommittedEmpty)
-		com = fmt.Sprintf("(Some (%s, %d, true))", cN(p), k)
-	}
+	com := opt(m.Committed) + " " + opt(m.CommittedEmpty)
 	sealed := "None"
 	var sb *mBlk
 	if m.Sealed {
@@ -298,6 +291,19 @@ func (nw *netw) apply(e Event) bool {
 		nd.StepAct()
 		sent, _ := nd.Drain()
 		nw.observe(e.Node, "LAct", false, sent)
+	case "peek":
+		if p, fe, ok := nd.PeekCommit(e.Timer); ok {
+			nw.intent[e.Node] = &Late{Proposer: p, ForEmpty: fe}
+		} else {
+			delete(nw.intent, e.Node)
+		}
+	case "late":
+		if e.Late == nil {
+			return false
+		}
+		nd.CommitLate(e.Late.Proposer, e.Late.ForEmpty)
+		sent, _ := nd.Drain()
+		nw.observe(e.Node, fmt.Sprintf("LCommitLate %s %s", cN(e.Late.Proposer), hx.CoqBool(e.Late.ForEmpty)), false, sent)
 	case "timer":
 		if e.Timer < 0 || e.Timer > 3 {
 			return false
